@@ -23,6 +23,11 @@ func TestCheck(t *testing.T) {
 		r.Finish()
 		return
 	}
+	if os.Getenv("VERIF_PART") == "large" {
+		largePart(t, r, prop)
+		r.Finish()
+		return
+	}
 	n := r.Env.N(2000, 50000)
 	if os.Getenv("VERIF_RACE_SUBSET") != "" {
 		n = r.Env.N(400, 5000) // the -race part repeats a prefix of the same case list
